@@ -11,6 +11,7 @@ import (
 	"verif/explore"
 	"verif/hapi"
 	"verif/vrt"
+	"verif/vrt/vos"
 )
 
 // SeqOp is one step of a sequential history: a request by a client, or a clock advance.
@@ -38,6 +39,8 @@ type SeqSpec struct {
 	Drain    bool  // extend every state by unlock-all + clock advance and require a clean engine
 	DrainFor int64 // how long to advance in the drain (default 40s)
 	NoDedupe bool  // pure tree (cross-check of the canonical key)
+	Restart  bool  // after every history: flush the persistence queue, kill the node, start a new one on the same directory
+	Full     bool  // full node (listener, Serve) instead of engine only
 	MaxStates int
 }
 
@@ -50,7 +53,15 @@ type SeqStep struct {
 }
 
 // SeqRun is one executed history.
+type RestartObs struct {
+	Before   *hapi.Snapshot // just before the stop (persistence queue drained)
+	After    *hapi.Snapshot // after the new node has loaded
+	StartErr string
+	Files    []string
+}
+
 type SeqRun struct {
+	Restart *RestartObs
 	Spec    *SeqSpec
 	Ramp    []SeqStep
 	Steps   []SeqStep
@@ -135,6 +146,24 @@ func ExecSeq(spec *SeqSpec, hist []SeqOp) (*SeqRun, string) {
 		}
 		if len(hist) == 0 {
 			run.Steps = append(run.Steps, SeqStep{Op: SeqOp{Tick: 0}, Snap: node.Snapshot(), T: vrt.Elapsed()})
+		}
+		if spec.Restart {
+			ro := &RestartObs{}
+			run.Restart = ro
+			vrt.AdvanceTo(vrt.Elapsed() + 250*ms) // the 200 ms channel timer flushes and syncs the file
+			node.Poke("flushaof")
+			vrt.Quiesce()
+			ro.Before = node.Snapshot()
+			vrt.KillGroup(spec.Cfg.WithDefaults().Name)
+			ro.Files = vos.Cur().Files("/")
+			n2 := hapi.Factories["n0"](spec.Cfg)
+			if err := n2.StartEngine(); err != nil {
+				ro.StartErr = err.Error()
+				return
+			}
+			vrt.AdvanceTo(vrt.Elapsed() + 100*ms)
+			ro.After = n2.Snapshot()
+			return
 		}
 		if spec.Drain {
 			node.ClearEvents()
